@@ -85,6 +85,20 @@ def make_lines(style, decl, selfl, ltag, stag, ov, other):
     if other:
         lines.append("P\tpath1\tt0+,r0+\t*\n")
         lines.append("W\ts\t1\tchr1\t0\t5\t>t0>r0\n")
+    if decl in (1, 2):
+        # GFA prescribes no line order: links before the segments (1) / interleaved with them (2)
+        ls = [l for l in lines if l.startswith("L")]
+        rest = [l for l in lines if not l.startswith("L")]
+        if decl == 1:
+            first_s = [i for i, l in enumerate(rest) if l.startswith("S")][0]
+            lines = rest[:first_s] + ls + rest[first_s:]
+        else:
+            lines = []
+            for l in rest:
+                lines.append(l)
+                if l.startswith("S") and ls:
+                    lines.append(ls.pop(0))
+            lines += ls
     return lines
 
 
